@@ -315,6 +315,19 @@ def main(ctx):
                 ctx.violation('V', 'read routes disagree', case={'f': ev['f'], 'layout': ev['layout']}, actual={k: ev[k] for k in ('shape', 'values', 'cells')}, clause=clause)
     if sw:
         ctx.sample({'leg': 'V', 'sweep_event': {k: sw[0][k] for k in ('op', 'layouts')}, 'result0': sw[0]['results'][0]})
+    # ---- probe: the same columns in the same block layout, built in one go and grown by one append (recorded as C03-grown-row-dtype)
+    a2 = np.array([[1.5], [2.5]])
+    b1 = np.array([3, 4])
+    for x in (a2, b1):
+        x.flags.writeable = False
+    direct = sf.FrameGO(sf.TypeBlocks.from_blocks((a2, b1)), columns=('p', 'q'))
+    grown = sf.FrameGO(sf.TypeBlocks.from_blocks((a2,)), columns=('p',))
+    grown['q'] = b1
+    cols_equal = all(x.dtype == y.dtype and x.tolist() == y.tolist() for x, y in zip(direct.iter_array(axis=0), grown.iter_array(axis=0))) and P.layout_of(direct) == P.layout_of(grown)
+    if P.enc_dtype(direct.values.dtype) != P.enc_dtype(grown.values.dtype) or direct.transpose().dtypes.values.tolist() != grown.transpose().dtypes.values.tolist():
+        ctx.violation('V', 'a grown FrameGO and the same Frame built in one go (equal columns, equal block layout) read their rows with different dtypes',
+                      case={'probe': 'grown_row_dtype', 'op': 'values'}, expected={'values_dtype': P.enc_dtype(direct.values.dtype)},
+                      actual={'grown_values_dtype': P.enc_dtype(grown.values.dtype), 'columns_equal': bool(cols_equal)}, clause='history_observable')
     # ---- shape family (SFShape / MC_SHAPE): each operation has ONE prescribed result, executed on block layouts
     shape.run(ctx, 1500 if quick else 40000)
     ctx.counters['sweep_ops'] = len(SWEEP)
